@@ -188,6 +188,29 @@ class AObj(Abs):
         return "<%s%s>" % (self.cls.split(".")[-1], (" " + str(self.tag)) if self.tag else "")
 
 
+class NTObj(AObj):
+    """Instance of a namedtuple class: compares and hashes by value, field by field, like a tuple (members that are
+    instances of repository classes compare by identity unless the analysis says otherwise)."""
+
+    def _key(self):
+        return (self.cls,) + tuple(_nt_key(self.attrs[f]) for f in self.fields)
+
+    def __eq__(self, other):
+        return isinstance(other, NTObj) and self._key() == other._key()
+
+    def __ne__(self, other):
+        return not self.__eq__(other)
+
+    def __hash__(self):
+        return hash(self._key())
+
+
+def _nt_key(v):
+    if isinstance(v, (tuple, list)):
+        return tuple(_nt_key(x) for x in v)
+    return v
+
+
 class NTClass(Abs):
     """A class made by collections.namedtuple(name, fields)."""
 
@@ -311,7 +334,13 @@ class GenObj(Abs):
             self.thread.start()
         else:
             self.resume.release()
+        # the body runs now: one more active frame until it yields or returns
+        it = self.it
+        it.depth += 1
+        if it.depth > it.max_depth:
+            it.max_depth = it.depth
         self.ready.acquire()
+        it.depth -= 1
         kind, val = self.msg
         if kind == "yield":
             return val
@@ -562,6 +591,7 @@ class Interp(object):
         self.max_steps = max_steps
         self.max_loop = max_loop
         self.depth = 0
+        self.max_depth = 0
         self.modcache = {}
         self.generators = []
         self.mod_inited = set()
@@ -777,7 +807,7 @@ class Interp(object):
             vals.update(kwargs)
             if set(vals) != set(f.fields) or len(args) > len(f.fields):
                 raise AbsRaise("TypeError", ("namedtuple %s expects fields %s" % (f.name, f.fields),))
-            obj = AObj("collections." + f.name, vals, tag="namedtuple")
+            obj = NTObj("collections." + f.name, vals, tag="namedtuple")
             obj.fields = list(f.fields)
             return obj
         if isinstance(f, ExtRef):
@@ -856,6 +886,8 @@ class Interp(object):
             env.vars["__gen__"] = g
             return g
         self.depth += 1
+        if self.depth > self.max_depth:
+            self.max_depth = self.depth
         try:
             self.exec_block(node.body, env, ctx)
         except _Return as r:
@@ -1041,6 +1073,17 @@ class Interp(object):
             return ExtRef(obj.name + "." + name)
         if isinstance(obj, NTClass):
             self.unsupported("attribute %s of namedtuple class" % name, node)
+        if isinstance(obj, Prim) and obj.name == "dict" and name == "fromkeys":
+            def _fromkeys(it, a, k):
+                out = {}
+                for x in it.iterate(a[0]):
+                    if isinstance(x, Abs) and not _hashable_abs(x):
+                        it.unsupported("dict.fromkeys over %r" % (x,))
+                    out[x] = a[1] if len(a) > 1 else None
+                return out
+            return Prim(_fromkeys, "dict.fromkeys")
+        if isinstance(obj, Prim) and obj.name == "str" and name in ("join", "lower", "upper", "strip", "format", "startswith", "endswith"):
+            return Prim(lambda it, a, k, n=name: it.py_method(a[0], n, list(a[1:]), k), "str." + name)
         if isinstance(obj, Func):
             if name == "__name__":
                 return obj.name
@@ -1847,6 +1890,10 @@ class Interp(object):
                 self.unsupported("abstract item in str", node)
             return item in container
         items = list(container.keys()) if isinstance(container, dict) else list(container)
+        if isinstance(item, NTObj):
+            if isinstance(container, (dict, set, frozenset)):
+                return item in container
+            return any(x is item or x == item for x in items)
         if isinstance(item, Abs) and not isinstance(item, (SymInt, SymBool)):
             return any(x is item for x in items)
         if isinstance(item, SymInt):
@@ -1863,7 +1910,7 @@ class Interp(object):
             if isinstance(x, Abs):
                 continue
             try:
-                if x == item and (type(x) is type(item) or not isinstance(x, bool) and not isinstance(item, bool)):
+                if x == item:
                     return True
             except Exception:
                 pass
@@ -2037,7 +2084,10 @@ def _b_isinstance(it, a, k):
                     return True
                 continue
             if nm in ("CollectionsIterable", "Iterable"):
-                if isinstance(v, (list, tuple, set, frozenset, dict, str)):
+                if isinstance(v, (list, tuple, set, frozenset, dict, str, GenObj, ListIter)):
+                    return True
+                from .extmodel import DequeModel
+                if isinstance(v, DequeModel):
                     return True
                 continue
             if nm == "BaseException" or nm in BUILTIN_EXC:
